@@ -469,6 +469,45 @@ var transforms = map[string]func(f *ast.File){
 			return []ast.Stmt{&ast.SwitchStmt{Body: &ast.BlockStmt{List: clauses}}}
 		})
 	},
+	// mergeand: if A { if B { S } }  ->  if A && B { S }   (no init, no else on either; the inner if is the only statement)
+	"mergeand": func(f *ast.File) {
+		ast.Inspect(f, func(n ast.Node) bool {
+			i, ok := n.(*ast.IfStmt)
+			if !ok || i.Init != nil || i.Else != nil || len(i.Body.List) != 1 {
+				return true
+			}
+			in, ok := i.Body.List[0].(*ast.IfStmt)
+			if !ok || in.Init != nil || in.Else != nil {
+				return true
+			}
+			if want() {
+				par := func(e ast.Expr) ast.Expr {
+					if b, isB := e.(*ast.BinaryExpr); isB && b.Op == token.LOR {
+						return &ast.ParenExpr{X: e}
+					}
+					return e
+				}
+				i.Cond = &ast.BinaryExpr{X: par(i.Cond), Op: token.LAND, Y: par(in.Cond)}
+				i.Body = in.Body
+			}
+			return true
+		})
+	},
+	// initblock: if INIT; C {..} [else {..}]  ->  { INIT; if C {..} [else {..}] }   (not an else-if itself)
+	"initblock": func(f *ast.File) {
+		rewriteStmtLists(f, func(list []ast.Stmt, k int, elseIf map[*ast.IfStmt]bool) []ast.Stmt {
+			i, ok := list[k].(*ast.IfStmt)
+			if !ok || i.Init == nil || elseIf[i] {
+				return nil
+			}
+			if !want() {
+				return nil
+			}
+			init := i.Init
+			i.Init = nil
+			return []ast.Stmt{&ast.BlockStmt{List: []ast.Stmt{init, i}}}
+		})
+	},
 	"hoistcond": func(f *ast.File) {
 		rewriteStmtLists(f, func(list []ast.Stmt, k int, elseIf map[*ast.IfStmt]bool) []ast.Stmt {
 			i, ok := list[k].(*ast.IfStmt)
